@@ -335,6 +335,72 @@ impl PullSocket {
 //@ end
 }
 
+// =================================================================================
+// SUB / XPUB recv (for C14's await-invariants; the subscription bookkeeping itself is C11/C13: not applicable)
+// =================================================================================
+/// stand-ins for the two backends: only what recv calls (ASSUMED effects)
+pub struct SubSocketBackend { pub peers: scc::HashMap<PeerIdentity, Peer> }
+impl SubSocketBackend {
+    #[verifier::external_body]
+    pub fn peer_disconnected(&mut self, peer_id: &PeerIdentity)
+        ensures final(self).peers@ == old(self).peers@.remove(*peer_id),
+    { unimplemented!() }
+}
+pub struct XPubSocketBackend { pub peers: scc::HashMap<PeerIdentity, Peer> }
+impl XPubSocketBackend {
+    #[verifier::external_body]
+    pub fn peer_disconnected(&mut self, peer_id: &PeerIdentity)
+        ensures final(self).peers@ == old(self).peers@.remove(*peer_id),
+    { unimplemented!() }
+    // subscription tracking (scc entry mutation, iter().position(closure)): outside both tools; touches no peer entry
+    #[verifier::external_body]
+    pub fn message_received(&mut self, peer_id: &PeerIdentity, message: Message)
+        ensures final(self).peers@ == old(self).peers@,
+    { unimplemented!() }
+}
+//@ item src/sub.rs :: struct SubSocket
+//@ end
+//@ item src/xpub.rs :: struct XPubSocket
+//@ end
+impl SubSocket {
+//@ item src/sub.rs :: impl SocketRecv for SubSocket / fn recv
+//@ name SubSocket::recv
+//@ inherent
+//@ attr
+//@|    #[verifier::loop_isolation(false)]
+//@|    #[verifier::exec_allows_no_decreases_clause]
+//@ ret r
+//@ spec
+//@|        ensures plain_received(old(self).fair_queue.log@, final(self).fair_queue.log@, r),
+//@ loop 1
+//@|            invariant
+//@|                self.fair_queue.log@.len() >= old(self).fair_queue.log@.len(),
+//@|                self.fair_queue.log@.subrange(0, old(self).fair_queue.log@.len() as int) =~= old(self).fair_queue.log@,
+//@|                forall|i: int| old(self).fair_queue.log@.len() <= i < self.fair_queue.log@.len() ==> skipped_item(#[trigger] self.fair_queue.log@[i]),
+//@ await *
+//@|        forall|i: int| old(self).fair_queue.log@.len() <= i < self.fair_queue.log@.len() ==> skipped_item(#[trigger] self.fair_queue.log@[i])
+//@ end
+}
+impl XPubSocket {
+//@ item src/xpub.rs :: impl SocketRecv for XPubSocket / fn recv
+//@ name XPubSocket::recv
+//@ inherent
+//@ attr
+//@|    #[verifier::loop_isolation(false)]
+//@|    #[verifier::exec_allows_no_decreases_clause]
+//@ ret r
+//@ spec
+//@|        ensures plain_received(old(self).fair_queue.log@, final(self).fair_queue.log@, r),
+//@ loop 1
+//@|            invariant
+//@|                self.fair_queue.log@.len() >= old(self).fair_queue.log@.len(),
+//@|                self.fair_queue.log@.subrange(0, old(self).fair_queue.log@.len() as int) =~= old(self).fair_queue.log@,
+//@|                forall|i: int| old(self).fair_queue.log@.len() <= i < self.fair_queue.log@.len() ==> skipped_item(#[trigger] self.fair_queue.log@[i]),
+//@ await *
+//@|        forall|i: int| old(self).fair_queue.log@.len() <= i < self.fair_queue.log@.len() ==> skipped_item(#[trigger] self.fair_queue.log@[i])
+//@ end
+}
+
 /// C10 at the socket API: the application's message is handed back intact when nobody is connected,
 /// otherwise exactly the first live peer of the rotation gets the whole message (flushed) and rotates
 spec fn rr_socket_sent(b0: GenericSocketBackend, b1: GenericSocketBackend, r: ZmqResult<()>, m: ZmqMessage) -> bool {
